@@ -375,6 +375,31 @@ def param_view_kept(holder):
     return sorted(attrs), sorted(holder.attrs)
 
 
+def disjoint_either_way(groups, wanted):
+    chosen = set(wanted)
+    nan = numpy.nan
+    return [g for g in groups if chosen.isdisjoint(g)], [set(g).isdisjoint(chosen) for g in groups], [x for x in (1.0, nan) if x == x]
+
+
+_ABSENT = object()
+
+
+def sentinel_lookup(table, key):
+    value = table.get(key, _ABSENT)
+    if value is _ABSENT:
+        raise KeyError(key)
+    assert value is not None
+    return value
+
+
+def sentinel_lookup_kept(table, key):
+    """Another exception, another key: left alone."""
+    value = table.get(key, _ABSENT)
+    if value is _ABSENT:
+        raise KeyError('missing')
+    return value
+
+
 def library_keywords_kept(xs):
     """A keyword that is NOT the documented default stays: Fortran order is another array."""
     grid = numpy.asarray(xs).reshape((2, 2), order='F')
@@ -1461,6 +1486,9 @@ CASES = {
     'variable_views': [(_xr_dataset(),)],
     'param_view': [(HOLDER_A,), (HOLDER_C,)],
     'param_view_kept': [(Holder(dims=(), attrs={'a': 1}, alpha='p', beta='q'),)],
+    'disjoint_either_way': [([('a', 'b'), ('c',), ()], ['a']), ([], [])],
+    'sentinel_lookup': [({'a': 1}, 'a'), ({'a': 1}, 'b'), ({'a': 0}, 'a')],
+    'sentinel_lookup_kept': [({'a': 1}, 'b'), ({'a': 1}, 'a')],
     'library_keywords_kept': [([1, 2, 3, 4],)],
     'get_test_encoding': [({'k': 1}, 'k'), ({}, 'k'), ({'k': None}, 'k'), ({'k': 0}, 'k')],
     'conditional_element': [(True,), (False,)],
